@@ -262,7 +262,18 @@ def call_apply(obj, x, axis, in_place):
     with warnings.catch_warnings():
         warnings.simplefilter("ignore")
         with np.errstate(all="ignore"):
+            if in_place is False and (x.size + (0 if axis is None else 1)) % 3 == 0:
+                # `in_place` left to its documented default (False) instead of being spelled out; which calls do so
+                # depends on the case only
+                return obj.apply(x) if axis is None else obj.apply(x, axis)
             return obj.apply(x, axis=axis, in_place=in_place)
+
+
+def via_config(P, alias, coeff):
+    """the pre-processor through the documented configuration route (a mapping handed to alias_factory_subclass_from_arg)"""
+    from pydrobert.speech.alias import alias_factory_subclass_from_arg
+
+    return alias_factory_subclass_from_arg(P.PreProcessor, {"alias": alias, "coeff": coeff})
 
 
 def pre_exact(x_fr, c):
@@ -292,7 +303,7 @@ def run_pre_case(ctx, case, lines, pending):
     ctx.count("pre_in_place_%s" % ip)
     ctx.count("pre_axis_%s" % axis)
     try:
-        y = call_apply(P.Preemphasize(coeff), x, axis, ip)
+        y = call_apply(via_config(P, "preemph", coeff) if case["xseed"] % 4 == 0 else P.Preemphasize(coeff), x, axis, ip)
     except Exception as e:  # the property's quantifier holds no input on which apply may raise
         ctx.violation(case, "a result", "%s: %s" % (type(e).__name__, e), "Preemphasize.apply returns", tags=dict(op="pre", clause="raises"))
         return
@@ -503,7 +514,7 @@ def dither_case(r):
 
 def seeded_dither(P, coeff, x, axis, in_place, seed):
     np.random.seed(seed)
-    return call_apply(P.Dither(coeff), x, axis, in_place)
+    return call_apply(via_config(P, "dither", coeff) if seed % 4 == 0 else P.Dither(coeff), x, axis, in_place)
 
 
 def dither_exact(xs, zs, c):
